@@ -243,6 +243,14 @@ def formula_literal(a, cells, prefix='Sheet1!'):
     t = a['t']
     if t == 'num':
         lit = fmt_rational(a['n'], a['d'])
+        if lit is not None and a.get('sci') and a['d'] > 1 and a['n'] != 0:
+            # the way Excel itself stores small numbers in a file: 1E-05, 2.5E-03, -7.5E-04
+            k = len(lit.split('.')[1])
+            m = str(abs(a['n']) * 10 ** k // a['d']).rstrip('0') or '0'
+            k -= len(str(abs(a['n']) * 10 ** k // a['d'])) - len(m)
+            e = k - (len(m) - 1)
+            if e > 0:
+                return ('-' if a['n'] < 0 else '') + m[0] + ('.' + m[1:] if len(m) > 1 else '') + f'E-{e:02d}'
         if lit is not None:
             return lit if a['n'] >= 0 else lit    # unary minus literal
         return f"({a['n']}/{a['d']})"
